@@ -57,6 +57,9 @@ def main():
     from .boot import SIM
 
     SIM.phase_cb = phase  # (this module runs as __main__: engines must not import it by name)
+    # the warm-up is ordinary sequential use of the library (a few evaluations on each back end, a
+    # collection): a process that dies by a signal in it is journalled like a crash inside a run
+    phase("warmup")
     try:
         eng.boot(cfg)
     except BaseException as e:
@@ -82,7 +85,11 @@ def main():
             plan = json.loads(line)
             emit({"ev": "begin", "i": -1, "seed": plan.get("run_seed")})
             try:
-                res = run_one(plan)
+                if plan.get("warmup_only"):
+                    # replay of "the process dies during warm-up": it did not, or we would not be here
+                    res = {"verdict": "ok", "violations": [], "digest": "warmup"}
+                else:
+                    res = run_one(plan)
             except BaseException as e:
                 import traceback
 
